@@ -33,12 +33,14 @@ type c17Event struct {
 }
 
 type c17Model struct {
-	keyEvents map[string][]c17Event // developer key -> timeline (sorted by From, later entries win)
-	uncertain map[string]bool       // keys whose timeline the documentation does not pin down
+	keyEvents map[string][]c17Event  // developer key -> timeline (sorted by From, later entries win)
+	uncertain map[string]bool        // keys whose timeline the documentation does not pin down
 	lives     map[string][][2]uint64 // project id -> lifetimes [from, gone) (gone 0 = open)
 }
 
-func (m *c17Model) born(id string, from uint64) { m.lives[id] = append(m.lives[id], [2]uint64{from, 0}) }
+func (m *c17Model) born(id string, from uint64) {
+	m.lives[id] = append(m.lives[id], [2]uint64{from, 0})
+}
 
 func (m *c17Model) dies(id string, gone uint64) {
 	if l := m.lives[id]; len(l) > 0 && l[len(l)-1][1] == 0 {
